@@ -540,7 +540,9 @@ class MockIncludeDirective:
             self.renderer.nested_render_text(
                 file_content,
                 startline + 1,
-                heading_offset=self.options.get("heading-offset", 0),
+                # (on top of the offset of an include that this one is nested in)
+                heading_offset=self.renderer._heading_offset
+                + self.options.get("heading-offset", 0),
             )
         finally:
             self.document.myst_include_stack.pop()
